@@ -507,7 +507,7 @@ func genC09(g *gen) {
 		for i := 0; i < nOps; i++ {
 			s := pool[g.r.IntN(len(pool))]
 			op := g.callOp(th.Mgr, s, 0, 0.15)
-			for _, p := range op.Plans {
+			for _, p := range plansInOrder(op.Plans) {
 				// handlers always return or release: slow, never hung
 				p.Late = g.chance(0.7)
 				if s.Kind == "cstream" {
